@@ -174,7 +174,11 @@ class Ctx:
             cmd += ["-modfile", str(mf)]
         else:
             shutil.copy(REPO / "go.sum", h / "go.sum")
-        cmd.append("./cmd/vh")
+        # One binary per property: ./cmd/vhNN imports only internal/cNN (and what it imports).
+        target = "./cmd/vh" + self.prop[1:].lower()
+        if not (h / target).is_dir():
+            target = "./cmd/vh"
+        cmd.append(target)
         p = subprocess.run(cmd, cwd=h, env=self.go_env(), stdout=subprocess.PIPE,
                            stderr=subprocess.STDOUT, text=True, timeout=900)
         if p.returncode != 0:
